@@ -495,6 +495,23 @@ class World(object):
         self.event("alias", op["id"], s.id)
         return r
 
+    def op_edit_posonly(self, op, rng):
+        """Hand-edited data (dataclasses.replace): the first plain positional parameter becomes positional-only.
+        A new data value like any other; on 3.7 every to_code() of it must behave the same (raise)."""
+        s = self.slots[op["in"][0]]
+        d = s.value
+        if s.kind != "data" or d.type is None or not d.type.args.positional_or_keyword:
+            op["skipped"] = True
+            return None
+        a = d.type.args
+        a2 = dataclasses.replace(a, positional_only=a.positional_only + a.positional_or_keyword[:1], positional_or_keyword=a.positional_or_keyword[1:])
+        new = dataclasses.replace(d, type=dataclasses.replace(d.type, args=a2))
+        r = self.add_slot(op, "data", new, s.lineage, s.route + ["edit_posonly"], parent=s)
+        r.normalized = s.normalized
+        self.count("hand_edit_positional_only")
+        self.event("edit_posonly", op["id"])
+        return r
+
     def op_ambient(self, op, rng):
         """Swarm knob: the application's own interpreter settings (recorded, so replay sets them too)."""
         if "int_max_str_digits" in op and hasattr(sys, "set_int_max_str_digits"):
